@@ -169,8 +169,14 @@ func (pxy *BaseProxy) HandleTCPWorkConnection(workConn net.Conn, m *msg.StartWor
 		if m.DstAddr == "" {
 			m.DstAddr = "127.0.0.1"
 		}
-		srcAddr, _ := net.ResolveTCPAddr("tcp", net.JoinHostPort(m.SrcAddr, strconv.Itoa(int(m.SrcPort))))
-		dstAddr, _ := net.ResolveTCPAddr("tcp", net.JoinHostPort(m.DstAddr, strconv.Itoa(int(m.DstPort))))
+		srcAddr, errSrc := net.ResolveTCPAddr("tcp", net.JoinHostPort(m.SrcAddr, strconv.Itoa(int(m.SrcPort))))
+		dstAddr, errDst := net.ResolveTCPAddr("tcp", net.JoinHostPort(m.DstAddr, strconv.Itoa(int(m.DstPort))))
+		if errSrc != nil || errDst != nil {
+			// a nil *net.TCPAddr inside the header makes the proxy protocol encoder panic
+			workConn.Close()
+			xl.Errorf("invalid source or destination address in StartWorkConn: [%s] [%s]", m.SrcAddr, m.DstAddr)
+			return
+		}
 		connInfo.SrcAddr = srcAddr
 		connInfo.DstAddr = dstAddr
 	}
